@@ -301,6 +301,39 @@ def views_history(ctx, kind, start, hist, warm):
     _read_views(ctx, 'reassign', obj, kind, P, W)
 
 
+@scenario('C09', fns=['abstract.GeomdlBase.__deepcopy__', 'NURBS.Curve.__deepcopy__', 'NURBS.Surface.__deepcopy__',
+                      'NURBS.Volume.__deepcopy__', 'NURBS.Curve.ctrlpts', 'NURBS.Curve.weights', 'NURBS.Curve.reset'],
+          quick=[dict(kind=k, warm=w, edit=e, first=f) for k in ('curve', 'surface', 'volume') for w in (True, False)
+                 for e in ('Pw', 'W') for f in ('copy', 'orig')])
+def views_after_deepcopy(ctx, kind, warm, edit, first):
+    """requires: a rational shape (views read once if warm), a deep copy of it, then one view of the COPY set to fresh values
+       ensures : read in either order, the copy reports the new state and the original still its own: the relation
+                 ctrlptsw = (ctrlpts*w, w) and the tracked values hold for both objects (the lazily filled views of
+                 one object are not the other's)"""
+    import copy
+    k = KINDS[kind]
+    n, dim, sizes = _count(kind), k['dim'], k['sizes']
+    obj = _new_rational(ctx, kind)
+    P, W = shapes.net(ctx, 'A', n, dim), shapes.weights(ctx, 'a', n)
+    obj.set_ctrlpts(_copy2(spec.weighted(P, W)), *sizes)
+    if warm:
+        _read_views(ctx, 'start', obj, kind, P, W)
+    cp = copy.deepcopy(obj)
+    P2, W2 = (shapes.net(ctx, 'B', n, dim), shapes.weights(ctx, 'b', n)) if edit == 'Pw' else (P, shapes.weights(ctx, 'b', n))
+    if edit == 'Pw':
+        cp.ctrlptsw = _copy2(spec.weighted(P2, W2))
+    else:
+        cp.weights = list(W2)
+    for who in ((cp, obj) if first == 'copy' else (obj, cp)):
+        if who is cp:
+            _read_views(ctx, 'copy', cp, kind, P2, W2)
+        else:
+            _read_views(ctx, 'original', obj, kind, P, W)
+    # and once more in the other order (both caches are filled now)
+    _read_views(ctx, 'original.again', obj, kind, P, W)
+    _read_views(ctx, 'copy.again', cp, kind, P2, W2)
+
+
 # ------------------------------------------------------------------------------------------------
 # (c), (d) conversion and weight scaling on evaluating shapes
 # ------------------------------------------------------------------------------------------------
